@@ -12,7 +12,7 @@ claimed = {
    text="Seeded exploration of histories (add/remove/move inputs and outputs, sign with each of 12 hash types through FillInput/FillAllInputs, transit through the wire formats, tamper faults, signer failures); after every event each library-signed input must verify iff the projection it committed to is unchanged.",
    note="Assumes SHA-256d collision-freeness and ECDSA unforgeability for the '=> invalid' direction. Only P2PKH / P2PKH-inscription spends; does not decide that digests equal the specification (C02/C03).", ref="DESIGN.md §3 C04"),
  "C09": dict(cat="fault_enumeration", tech="deterministic simulation with fault injection on the reader seam: complete enumeration of truncation offsets and length-field inflations per base stream, seeded bit flips / transient reader errors / delivery plans; totality, consumed<=supplied and allocation-meter oracles",
-   text="Per base stream every truncation offset and every (length field x inflated value) is injected; flips, reader errors and delivery plans are seeded. Oracles: no panic / process death, reported bytes <= bytes handed out, injected error surfaces, allocation <= 1 MiB + 64 x supplied.",
+   text="Per base stream every truncation offset and every (length field x inflated value) is injected; flips, reader errors and delivery plans are seeded. Oracles: no panic / process death, reported bytes <= bytes handed out, injected error surfaces, allocation <= 8 MiB + 64 x supplied.",
    note="Base streams are sampled; the allocation bound's constants are deliberately loose; allocation failure itself cannot be injected in Go.", ref="DESIGN.md §3 C09"),
  "C12": dict(cat="fault_enumeration", tech="deterministic simulation: scripted supplier (callback + context) with complete enumeration of exhaustion/error/cancellation positions per seeded base scenario; lock-step executable reference model of the funding loop over the recorded call history",
    text="Per seeded base scenario (starting tx, fee quote, supplier history) every fault position is enumerated: exhaustion, unrelated error and context cancellation at each call index. Each execution of the real Fund is checked call by call against a reference funding model (deficit passed, call discipline, terminal result, input fidelity, outputs untouched, bounded calls).",
